@@ -51,7 +51,8 @@ Record pathinfo := mkPath {
   p_dst_exists : bool;
   p_map_exists : bool;
   p_mtime : time;                 (* modified time of the source *)
-  p_blob_ok : bool                (* fragment blob loads, decodes and restores *)
+  p_blob_ok : bool                (* the fragment blob and, when one is recorded, the diagnostics
+                                     blob load, decode and restore *)
 }.
 
 (* Incremental::dst_is_stale (with the missing-map clause of the repaired tree);
@@ -89,7 +90,7 @@ Definition dependents_of (m : manifest) (fs : list file) : list file :=
 Definition open_miss (co mn : bool) (m : manifest) (paths : list pathinfo) : list file :=
   let b := base_miss co mn m paths in b ++ dependents_of m b.
 
-(* try_restore succeeds: not in the miss set, entry present, blob usable *)
+(* try_restore succeeds: not in the miss set, entry present, blobs usable *)
 Definition restores (miss : list file) (m : manifest) (p : pathinfo) : bool :=
   negb (mem (p_file p) miss)
   && match lookup m (p_file p) with Some _ => true | None => false end
